@@ -915,4 +915,305 @@ theorem final_outs (c : CS) (hf : c.fail = false) (he : c.externs = []) (hh : c.
   rw [outsOf_append, outsOf_append, flushSymbols_outs, f1, f2, hn]
   simp [outsOf, outOf]
 
+
+/-! ### minimize statements: the pending table and what `endStep` emits -/
+def minOf : Call → Option (Int × List (Int × Int))
+  | .minimize p ls => some (p, ls)
+  | _ => none
+def minsOf (cs : List Call) : List (Int × List (Int × Int)) := cs.filterMap minOf
+theorem minsOf_append (a b : List Call) : minsOf (a ++ b) = minsOf a ++ minsOf b := by simp [minsOf]
+
+/-- value of the statements of priority `p` in a table of statements -/
+def costM (X : I) (m : List (Int × List (Int × Int))) (p : Int) : Int :=
+  ((m.filter (fun q => q.1 == p)).map (fun q => wsum X X q.2)).sum
+
+theorem wsum_append (X Y : I) (a b : List (Int × Int)) : wsum X Y (a ++ b) = wsum X Y a + wsum X Y b := by
+  simp [wsum, List.sum_append]
+
+theorem costM_cons (X : I) (q : Int × List (Int × Int)) (m : List (Int × List (Int × Int))) (p : Int) :
+    costM X (q :: m) p = (if q.1 == p then wsum X X q.2 else 0) + costM X m p := by
+  unfold costM
+  by_cases h : (q.1 == p) = true
+  · simp [List.filter_cons, h]
+  · simp [List.filter_cons, h]
+
+theorem costM_append (X : I) (a b : List (Int × List (Int × Int))) (p : Int) : costM X (a ++ b) p = costM X a p + costM X b p := by
+  simp [costM, List.filter_append, List.sum_append]
+
+theorem costM_single (X : I) (q : Int) (ls : List (Int × Int)) (p : Int) :
+    costM X [(q, ls)] p = if q == p then wsum X X ls else 0 := by
+  unfold costM
+  by_cases h : q = p <;> simp [List.filter_cons, h]
+
+theorem costM_insertMin (X : I) (m : List (Int × List (Int × Int))) (q : Int) (ls : List (Int × Int)) (p : Int) :
+    costM X (insertMin m q ls) p = costM X m p + (if q == p then wsum X X ls else 0) := by
+  induction m with
+  | nil =>
+    have : costM X [] p = 0 := rfl
+    simp only [insertMin, costM_single, this]; omega
+  | cons e r ih =>
+    obtain ⟨k, l⟩ := e
+    unfold insertMin
+    split
+    · rename_i hk
+      have : k = q := by simpa using hk
+      subst this
+      rw [costM_cons, costM_cons]
+      simp only
+      by_cases hp : (k == p) = true
+      · simp only [hp, ↓reduceIte, wsum_append]; omega
+      · simp only [hp, ↓reduceIte]; simp
+    · split
+      · rw [costM_cons]; simp only; omega
+      · rw [costM_cons, costM_cons, ih]; omega
+
+theorem auxAtom_frameM (c : CS) (cond : List Int) :
+    (c.auxAtom cond).1.minimize = c.minimize ∧ minsOf (c.auxAtom cond).1.out = minsOf c.out := by
+  unfold CS.auxAtom CS.emit
+  simp only
+  have h := rest_mapLits { c with next := c.next + 1, aux := c.aux ++ [c.next] } cond []
+  refine ⟨(congrArg (·.2.2.2.1) h).trans rfl, ?_⟩
+  rw [minsOf_append, rest_out h]
+  simp [minsOf, minOf]
+
+theorem makeAtom_frameM (c : CS) (cond : List Int) (named : Bool) :
+    (c.makeAtom cond named).1.minimize = c.minimize ∧ minsOf (c.makeAtom cond named).1.out = minsOf c.out := by
+  unfold CS.makeAtom
+  split
+  · simp only
+    have h := rest_mapAtom c (cond.headD 0).natAbs
+    split
+    · have := auxAtom_frameM (c.mapAtom (cond.headD 0).natAbs).1 cond
+      exact ⟨this.1.trans (congrArg (·.2.2.2.1) h), this.2.trans (by rw [rest_out h])⟩
+    · exact ⟨by show (c.mapAtom (cond.headD 0).natAbs).1.minimize = _; exact congrArg (·.2.2.2.1) h,
+        by show minsOf (c.mapAtom (cond.headD 0).natAbs).1.out = _; rw [rest_out h]⟩
+  · exact auxAtom_frameM c cond
+
+/-- a plain call changes the pending minimize table only when it is a minimize statement, and emits none -/
+theorem apply_frameM (c : CS) (hf : c.fail = false) (x : Call) (hx : PlainOk x) :
+    (c.apply x).minimize = (match x with | .minimize p ls => insertMin c.minimize p (ls.map flipNeg) | _ => c.minimize) ∧
+    minsOf (c.apply x).out = minsOf c.out := by
+  cases x with
+  | rule ht head body =>
+    unfold CS.apply
+    simp only [hf, Bool.false_eq_true, ↓reduceIte]
+    split
+    · have h : rest ((c.mapHead head).1.mapLits body []).1 = rest c := by simp
+      refine ⟨by show ((c.mapHead head).1.mapLits body []).1.minimize = _; exact congrArg (·.2.2.2.1) h, ?_⟩
+      simp only [CS.emit]
+      rw [minsOf_append, rest_out h]; simp [minsOf, minOf]
+    · exact ⟨rfl, rfl⟩
+  | sumRule ht head bound body =>
+    unfold CS.apply
+    simp only [hf, Bool.false_eq_true, ↓reduceIte]
+    split
+    · have h : rest ((c.mapHead head).1.mapWLits body []).1 = rest c := by simp
+      split
+      · refine ⟨by show ((c.mapHead head).1.mapWLits body []).1.minimize = _; exact congrArg (·.2.2.2.1) h, ?_⟩
+        simp only [CS.emit]
+        rw [minsOf_append, rest_out h]; simp [minsOf, minOf]
+      · refine ⟨by show ((c.mapHead head).1.mapWLits body []).1.minimize = _; exact congrArg (·.2.2.2.1) h, ?_⟩
+        simp only [CS.emit]
+        rw [minsOf_append, minsOf_append, rest_out h]; simp [minsOf, minOf]
+    · exact ⟨rfl, rfl⟩
+  | minimize prio lits =>
+    have hany : lits.any (fun p => p.2 == I32MINc) = false := by
+      rw [List.any_eq_false]; intro p hp; simpa using (hx p hp).2
+    unfold CS.apply
+    simp only [hf, Bool.false_eq_true, ↓reduceIte, hany]
+    constructor <;> first | rfl | trivial
+  | output str cond =>
+    have h := makeAtom_frameM c cond true
+    unfold CS.apply
+    simp only [hf, Bool.false_eq_true, ↓reduceIte]
+    exact ⟨h.1, h.2⟩
+  | _ => exact absurd hx (by simp [PlainOk])
+
+structure M (c : CS) (Ms : List (Int × List (Int × Int))) : Prop where
+  cost  : ∀ X p, costM X c.minimize p = costM X (Ms.map (fun q => (q.1, q.2.map flipNeg))) p
+  nz    : ∀ pl ∈ c.minimize, ∀ q ∈ pl.2, q.1 ≠ 0
+  nomin : minsOf c.out = []
+
+theorem flipNeg_ne (q : Int × Int) (h : q.1 ≠ 0) : (flipNeg q).1 ≠ 0 := by
+  unfold flipNeg; split <;> simp <;> omega
+
+theorem insertMin_nz (m : List (Int × List (Int × Int))) (p : Int) (ls : List (Int × Int)) (hm : ∀ pl ∈ m, ∀ q ∈ pl.2, q.1 ≠ 0)
+    (hl : ∀ q ∈ ls, q.1 ≠ 0) : ∀ pl ∈ insertMin m p ls, ∀ q ∈ pl.2, q.1 ≠ 0 := by
+  induction m with
+  | nil => intro pl hpl; simp only [insertMin, List.mem_singleton] at hpl; subst hpl; exact hl
+  | cons e r ih =>
+    obtain ⟨k, l⟩ := e
+    unfold insertMin
+    split
+    · intro pl hpl q hq
+      rcases List.mem_cons.mp hpl with h | h
+      · subst h
+        rcases List.mem_append.mp hq with h2 | h2
+        · exact hm (k, l) (by simp) q h2
+        · exact hl q h2
+      · exact hm pl (by simp [h]) q hq
+    · split
+      · intro pl hpl q hq
+        rcases List.mem_cons.mp hpl with h | h
+        · subst h; exact hl q hq
+        · exact hm pl h q hq
+      · intro pl hpl q hq
+        rcases List.mem_cons.mp hpl with h | h
+        · subst h; exact hm (k, l) (by simp) q hq
+        · exact ih (fun pl' h' => hm pl' (by simp [h'])) pl h q hq
+
+theorem M.step {c : CS} {Ms} (hM : M c Ms) (hf : c.fail = false) (x : Call) (hx : PlainOk x) : M (c.apply x) (Ms ++ minsOf [x]) := by
+  obtain ⟨h1, h2⟩ := apply_frameM c hf x hx
+  cases x with
+  | minimize prio lits =>
+    simp only at h1
+    have e : minsOf [Call.minimize prio lits] = [(prio, lits)] := rfl
+    refine ⟨?_, ?_, h2.trans hM.nomin⟩
+    · intro X p
+      rw [h1, costM_insertMin, hM.cost X p, e, List.map_append, costM_append]
+      simp only [List.map_cons, List.map_nil, costM_single]
+    · rw [h1]
+      apply insertMin_nz _ _ _ hM.nz
+      intro q hq
+      simp only [List.mem_map] at hq
+      obtain ⟨q0, hq0, rfl⟩ := hq
+      exact flipNeg_ne q0 (hx q0 hq0).1
+  | rule ht head body =>
+    simp only at h1
+    have e : minsOf [Call.rule ht head body] = [] := rfl
+    rw [e, List.append_nil]
+    exact ⟨fun X p => by rw [h1]; exact hM.cost X p, by rw [h1]; exact hM.nz, h2.trans hM.nomin⟩
+  | sumRule ht head bound body =>
+    simp only at h1
+    have e : minsOf [Call.sumRule ht head bound body] = [] := rfl
+    rw [e, List.append_nil]
+    exact ⟨fun X p => by rw [h1]; exact hM.cost X p, by rw [h1]; exact hM.nz, h2.trans hM.nomin⟩
+  | output str cond =>
+    simp only at h1
+    have e : minsOf [Call.output str cond] = [] := rfl
+    rw [e, List.append_nil]
+    exact ⟨fun X p => by rw [h1]; exact hM.cost X p, by rw [h1]; exact hM.nz, h2.trans hM.nomin⟩
+  | _ => exact absurd hx (by simp [PlainOk])
+
+theorem run_plainM {c : CS} {P O defs Ms} (hj : J c P defs) (hk : K c O defs) (hM : M c Ms) (ds : List Call) (hx : ∀ d ∈ ds, PlainOk d) :
+    ∃ defs', J (ds.foldl CS.apply c) (P ++ (rulesOf ds).filter kept) defs' ∧ K (ds.foldl CS.apply c) (O ++ outsOf ds) defs' ∧
+      M (ds.foldl CS.apply c) (Ms ++ minsOf ds) := by
+  induction ds generalizing c P O defs Ms with
+  | nil => exact ⟨defs, by simpa [rulesOf] using hj, by simpa [outsOf] using hk, by simpa [minsOf] using hM⟩
+  | cons d r ih =>
+    obtain ⟨defs1, h1, k1⟩ := apply_plain hj hk d (hx d (by simp))
+    have m1 := hM.step hj.nofail d (hx d (by simp))
+    obtain ⟨defs2, h2, k2, m2⟩ := ih h1 k1 m1 (fun e he => hx e (by simp [he]))
+    refine ⟨defs2, ?_, ?_, ?_⟩
+    · have : rulesOf (d :: r) = rulesOf [d] ++ rulesOf r := by rw [← rulesOf_append]; rfl
+      rw [this, List.filter_append, ← List.append_assoc]
+      exact h2
+    · have : outsOf (d :: r) = outsOf [d] ++ outsOf r := by rw [← outsOf_append]; rfl
+      rw [this, ← List.append_assoc]
+      exact k2
+    · have : minsOf (d :: r) = minsOf [d] ++ minsOf r := by rw [← minsOf_append]; rfl
+      rw [this, ← List.append_assoc]
+      exact m2
+
+
+theorem abs_flushSymbols (c : CS) : abs c.flushSymbols = abs c := by
+  unfold CS.flushSymbols
+  generalize sortSyms c.output = l
+  induction l generalizing c with
+  | nil => rfl
+  | cons p r ih => simp only [List.foldl_cons]; rw [ih]; rfl
+
+theorem flushSymbols_mins (c : CS) : minsOf c.flushSymbols.out = minsOf c.out := by
+  unfold CS.flushSymbols
+  generalize sortSyms c.output = l
+  induction l generalizing c with
+  | nil => rfl
+  | cons p r ih =>
+    simp only [List.foldl_cons]
+    rw [ih]
+    simp [CS.emit, minsOf_append, minsOf, minOf]
+
+def renW (m : Nat → Nat) (ls : List (Int × Int)) : List (Int × Int) := ls.map (fun q => (renLit m q.1, q.2))
+
+theorem flushMinimize_mins (c : CS) (hi : Inv (abs c)) (m : Nat → Nat) (ha : Agree c.flushMinimize m) :
+    minsOf c.flushMinimize.out = minsOf c.out ++ c.minimize.map (fun pl => (pl.1, renW m pl.2)) ∧
+    ∀ pl ∈ c.minimize, ∀ q ∈ pl.2, q.1.natAbs ∈ domOf c.flushMinimize := by
+  unfold CS.flushMinimize at ha ⊢
+  generalize c.minimize = ms at ha ⊢
+  induction ms generalizing c with
+  | nil => exact ⟨by simp, by intro pl h; cases h⟩
+  | cons pl r ih =>
+    simp only [List.foldl_cons] at ha ⊢
+    have hs1 := mapWLits_steps c pl.2 []
+    have hi1 := steps_inv' hs1 hi
+    have hi1' : Inv (abs ((c.mapWLits pl.2 []).1.emit (.minimize pl.1 (c.mapWLits pl.2 []).2))) := hi1
+    obtain ⟨i1, i2⟩ := ih _ hi1' ha
+    have hsr : Steps (abs ((c.mapWLits pl.2 []).1.emit (.minimize pl.1 (c.mapWLits pl.2 []).2)))
+        (abs (r.foldl (fun c pl => (c.mapWLits pl.2 []).1.emit (.minimize pl.1 (c.mapWLits pl.2 []).2))
+          ((c.mapWLits pl.2 []).1.emit (.minimize pl.1 (c.mapWLits pl.2 []).2)))) :=
+      foldl_steps _ (fun c pl => by simpa using mapWLits_steps c pl.2 []) r _
+    have hv := mapWLits_val c hi pl.2 [] m (agree_back hsr hi1' ha)
+    refine ⟨?_, ?_⟩
+    · rw [i1]
+      simp only [CS.emit, minsOf_append, List.map_cons, List.append_assoc]
+      have hout : (c.mapWLits pl.2 []).1.out = c.out := rest_out (by simp)
+      rw [hout, hv]
+      simp [minsOf, minOf, renW]
+    · intro pl' hpl' q hq
+      rcases List.mem_cons.mp hpl' with h | h
+      · subst h
+        exact dom_mono hsr hi1' _ (mapWLits_dom c hi pl'.2 [] q hq)
+      · exact i2 pl' h q hq
+
+/-- the minimize statements of the emitted step: the pending table, renamed; all their atoms are mapped -/
+theorem final_mins (c : CS) (hf : c.fail = false) (he : c.externs = []) (hh : c.heur = []) (hn : minsOf c.out = []) (hi : Inv (abs c))
+    (m : Nat → Nat) (ha : Agree (c.apply .endStep) m) :
+    minsOf (c.apply .endStep).out = c.minimize.map (fun pl => (pl.1, renW m pl.2)) ∧
+    ∀ pl ∈ c.minimize, ∀ q ∈ pl.2, q.1.natAbs ∈ domOf (c.apply .endStep) := by
+  obtain ⟨f1, f2, f3, f4⟩ := flushMinimize_frame c
+  have hfl : c.flush = { (c.flushMinimize.flushSymbols.emit (.assume [-1])) with minimize := [], externs := [], heur := [], output := [] } := by
+    unfold CS.flush
+    simp only
+    rw [flushExternal_none _ (f3.trans he), flushHeuristic_none _ (f4.trans hh)]
+  have habs : abs (c.apply .endStep) = abs c.flushMinimize := by
+    rw [apply_end c hf, hfl]
+    exact abs_flushSymbols c.flushMinimize
+  have ha' : Agree c.flushMinimize m := by unfold Agree; rw [← habs]; exact ha
+  obtain ⟨g1, g2⟩ := flushMinimize_mins c hi m ha'
+  refine ⟨?_, ?_⟩
+  · rw [apply_end c hf, hfl]
+    simp only [CS.emit]
+    rw [minsOf_append, minsOf_append, flushSymbols_mins, g1, hn]
+    simp [minsOf, minOf]
+  · intro pl hpl q hq
+    unfold domOf; rw [habs]; exact g2 pl hpl q hq
+
+
+theorem M.init (ext : Bool) : M ({ ext := ext } : CS) [] :=
+  ⟨fun _ _ => rfl, (by intro pl h; cases h), rfl⟩
+
+theorem M.emit {c : CS} {Ms} (hM : M c Ms) (x : Call) (hx : minOf x = none) : M (c.emit x) Ms :=
+  ⟨hM.cost, hM.nz, (by
+    show minsOf (c.out ++ [x]) = []
+    rw [minsOf_append, hM.nomin]; simp [minsOf, hx])⟩
+
+/-- all three invariants hold just before `endStep` -/
+theorem JKM.pre (ext inc : Bool) (ds : List Call) (hx : ∀ d ∈ ds, PlainOk d) :
+    ∃ defs, J (preEnd ext inc ds) ((rulesOf ds).filter kept) defs ∧ K (preEnd ext inc ds) (outsOf ds) defs ∧ M (preEnd ext inc ds) (minsOf ds) := by
+  have a1 : J (CS.apply { ext := ext } (.initProgram inc)) [] [] := by
+    rw [apply_init _ rfl]; exact (J.init ext).emit _ rfl
+  have b1 : K (CS.apply { ext := ext } (.initProgram inc)) [] [] := by
+    rw [apply_init _ rfl]; exact (K.init ext).emit (J.init ext).inv _ rfl
+  have c1 : M (CS.apply { ext := ext } (.initProgram inc)) [] := by
+    rw [apply_init _ rfl]; exact (M.init ext).emit _ rfl
+  have a2 : J ((CS.apply { ext := ext } (.initProgram inc)).apply .beginStep) [] [] := by
+    rw [apply_begin _ a1.nofail]; exact a1.emit _ rfl
+  have b2 : K ((CS.apply { ext := ext } (.initProgram inc)).apply .beginStep) [] [] := by
+    rw [apply_begin _ a1.nofail]; exact b1.emit a1.inv _ rfl
+  have c2 : M ((CS.apply { ext := ext } (.initProgram inc)).apply .beginStep) [] := by
+    rw [apply_begin _ a1.nofail]; exact c1.emit _ rfl
+  obtain ⟨defs, h1, k1, m1⟩ := run_plainM a2 b2 c2 ds hx
+  simp only [List.nil_append] at h1 k1 m1
+  exact ⟨defs, h1, k1, m1⟩
+
 end PotasscoVerif.C02
